@@ -350,6 +350,17 @@ def byte_decomp(ip, u, nb):
     return bs
 
 
+def be_value(ip, b):
+    """big-endian integer value of a byte sequence as an uninterpreted function with its range fact:
+    0 <= be_value(b) < 256**len(b)  (pow256 is uninterpreted, pinned at the lengths that occur)"""
+    f = ufun("be_value", zu.BytesS, zu.IntS)
+    r = f(b)
+    ip.path.assume(r >= 0)
+    if zu._entails(z3.Length(b) == 20):
+        ip.path.assume(r < 2 ** 160)
+    return ip.wrap(r, "int")
+
+
 class StructVal:
     def __init__(self, fmt):
         self.fmt = fmt
@@ -416,6 +427,17 @@ def install(ip):
             return 0
         v = a[0]
         base = a[1] if len(a) > 1 else k.get("base")
+        from .values import NumStr
+        if isinstance(v, NumStr):
+            if base != v.base:
+                raise Unsupported("int() of a number string in another base")
+            return v.n
+        if isinstance(v, Sym) and v.ty == "bytes" and base == 16 and z3.is_app(v.t) and v.t.decl().name() == "hexlify":
+            # int(hexlify(b), 16): the big-endian value of b  (ValueError for empty b)
+            b = v.t.arg(0)
+            if ip.path.branch(z3.Length(b) == 0):
+                ip.raise_exc("ValueError", "invalid literal for int()")
+            return be_value(ip, b)
         if is_concrete(v) and isinstance(v, (int, float, str, bytes, bool)) and (base is None or isinstance(base, int)):
             try:
                 return int(v) if base is None else int(v, base)
@@ -863,6 +885,11 @@ def install(ip):
         if is_concrete(v) and isinstance(spec, str):
             return format(v, spec)
         if isinstance(v, Sym) and v.ty == "int" and isinstance(spec, str):
+            import re as _re
+            m = _re.fullmatch(r"0(\d+)([bXx])", spec)
+            if m:
+                from .values import NumStr
+                return NumStr(v, int(m.group(1)), 2 if m.group(2) == "b" else 16)
             f = ufun("format_int_" + spec, zu.IntS, zu.StrS)
             return Sym(f(v.t), "str")
         raise Unsupported("format of symbolic")
@@ -1166,6 +1193,21 @@ def install(ip):
 
     def _unhexlify(ip, a, k):
         b = a[0]
+        from .values import NumStr
+        if isinstance(b, NumStr) and b.base == 16:
+            n = ip.to_z3(b.n, "int")
+            w = b.width
+            if w % 2:
+                raise Unsupported("unhexlify of odd-width number string")
+            # more than `width` digits (n >= 16**width) makes the digit count odd or longer; the code's intent is exactly width
+            if ip.path.branch(n >= 16 ** w):
+                if ip.path.branch(n < 16 ** (w + 1)):
+                    ip.raise_exc("binascii.Error", "Odd-length string")
+                raise Unsupported("unhexlify of a number string wider than width + 1")
+            r = ip.fresh("unhex", "bytes")
+            ip.path.assume(z3.Length(r.t) == w // 2)
+            ip.path.assume(ufun("be_value", zu.BytesS, zu.IntS)(r.t) == n)
+            return r
         if isinstance(b, (bytes, str)):
             import binascii
             try:
@@ -1199,8 +1241,21 @@ def install(ip):
         r = ip.fresh("random", "real")
         ip.path.assume(z3.And(r.t >= 0, r.t < 1))
         return r
-    mod("random", random=Builtin("random.random", _random), choice=Opaque("random.choice"), randint=Opaque("random.randint"),
-        sample=Opaque("random.sample"), shuffle=Opaque("random.shuffle"), getrandbits=Opaque("random.getrandbits"),
+    def _randint(ip, a, k):
+        r = ip.fresh("randint", "int")
+        ip.path.assume(z3.And(r.t >= ip.to_z3(a[0], "int"), r.t <= ip.to_z3(a[1], "int")))
+        return r
+
+    def _getrandbits(ip, a, k):
+        if not isinstance(a[0], int):
+            raise Unsupported("getrandbits of symbolic width")
+        r = ip.fresh("randbits", "int")
+        ip.path.assume(z3.And(r.t >= 0, r.t < 2 ** a[0]))
+        return r if a[0] > 0 else 0
+    ip.ext_modules.pop("random", None)
+    mod("random", random=Builtin("random.random", _random), randint=Builtin("random.randint", _randint),
+        getrandbits=Builtin("random.getrandbits", _getrandbits), choice=Opaque("random.choice"),
+        sample=Opaque("random.sample"), shuffle=Opaque("random.shuffle"),
         SystemRandom=Opaque("random.SystemRandom"))
 
     # asyncio (A7): scheduling primitives are events; awaiting anything external is a yield point
